@@ -1,6 +1,6 @@
 use crate::definition::{Definition, Internal};
 use crate::env::Env;
-use crate::errors::Result;
+use crate::errors::{Error, Kind, Result};
 use crate::eval::{cast_uri, AnnRef, Expr, Value};
 use crate::inference::tag;
 use oal_syntax::atom::Ident;
@@ -25,6 +25,13 @@ impl Internal for Concat {
 
     fn eval<'a>(&self, mut args: Vec<Value<'a>>, ann: AnnRef) -> Result<Value<'a>> {
         assert_eq!(args.len(), 2);
+        // Type tags do not tell URIs from alternatives of URIs.
+        if !args.iter().all(|a| a.0.dereference().is_uri_like()) {
+            return Err(Error::new(
+                Kind::InvalidType,
+                "ill-formed concat, not a uri",
+            ));
+        }
         let right = cast_uri(args.pop().unwrap());
         let mut left = cast_uri(args.pop().unwrap());
         left.append(right);
